@@ -2,4 +2,6 @@ import Parmcb.Props.C02b
 import Parmcb.Props.C02c
 import Parmcb.Props.C02d
 import Parmcb.Props.C02e
-/-! all property theorems of C02 -/
+import Parmcb.Props.C02f
+import Parmcb.Props.C02g
+/-! all C02 property theorems (C02, C02b … C02g) in one import -/
